@@ -74,6 +74,11 @@ fn shapes() -> Vec<Value> {
     json!({"body": "alpha beta gamma", "tag": ["z", "x"], "n": 5, "c": []}),
     json!({"body": "one two", "note": "second note", "f": 1.0, "c": [{"a": "q", "k": 2}, {"a": "p", "k": 5, "s": null}]}),
     json!({"body": "", "tag": "y"}),
+    // blank values: an empty entry inside a multi-valued text (it keeps a position gap), a blank
+    // and a whitespace-only keyword value, a whitespace-only text
+    json!({"body": ["alpha", "", "beta"], "note": " ", "tag": ["", "x"], "n": 1}),
+    json!({"body": ["alpha", "beta"], "tag": "", "f": 0.5}),
+    json!({"body": ["gamma", " ", "one"], "tag": [" ", "z"]}),
   ]
 }
 
@@ -94,6 +99,9 @@ fn battery() -> Vec<(String, Value)> {
   }
   q("phrase:beta two", json!({"type": "phrase", "field": "body", "terms": ["beta", "two"]}), None);
   q("phrase:two alpha slop1", json!({"type": "phrase", "field": "body", "terms": ["two", "alpha"], "slop": 1}), None);
+  q("phrase:alpha beta", json!({"type": "phrase", "field": "body", "terms": ["alpha", "beta"]}), None);
+  q("phrase:alpha beta slop1", json!({"type": "phrase", "field": "body", "terms": ["alpha", "beta"], "slop": 1}), None);
+  q("phrase:gamma one", json!({"type": "phrase", "field": "body", "terms": ["gamma", "one"]}), None);
   q("prefix:al", json!({"type": "prefix", "field": "body", "value": "al"}), None);
   q("wildcard:g*a", json!({"type": "wildcard", "field": "body", "value": "g*a"}), None);
   q("qs:alpha -one", json!("alpha -one"), None);
@@ -102,6 +110,9 @@ fn battery() -> Vec<(String, Value)> {
   for val in ["x", "X", "y", "z", "Y"] {
     q(&format!("f:tag={val}"), ma(), Some(json!({"KeywordEq": {"field": "tag", "value": val}})));
   }
+  q("f:tag=blank", ma(), Some(json!({"KeywordEq": {"field": "tag", "value": ""}})));
+  q("f:tag=space", ma(), Some(json!({"KeywordEq": {"field": "tag", "value": " "}})));
+  q("f:not tag=blank", ma(), Some(json!({"Not": {"KeywordEq": {"field": "tag", "value": ""}}})));
   q("f:tag in", ma(), Some(json!({"KeywordIn": {"field": "tag", "values": ["y", "z"]}})));
   for (lo, hi) in [(1, 1), (2, 4), (5, 9), (0, 0)] {
     q(&format!("f:n {lo}..{hi}"), ma(), Some(json!({"I64Range": {"field": "n", "min": lo, "max": hi}})));
